@@ -219,7 +219,9 @@ PINS = {
     #  every definition of every file of the native API)
     'C02': ['loop', 'waitq', 'notification', 'tracked', 'condition', 'handler', 'timing', 'flag', 'context', 'task', 'concurrent_exception',
             'locks', 'streams', 'resource', 'resource_level', 'pipe', 'basics', 'init'],
-    'C03': ['loop', 'notification', 'condition', 'timing', 'task', 'context'],
+    # ("every program that only makes valid API calls": like C02, every file of the native API)
+    'C03': ['loop', 'waitq', 'notification', 'tracked', 'condition', 'handler', 'timing', 'flag', 'context', 'task', 'concurrent_exception',
+            'locks', 'streams', 'resource', 'resource_level', 'pipe', 'basics', 'init'],
     'C04': ['context', 'task'],
     'C05': ['context', 'task', 'concurrent_exception'],
     'C06': ['task', 'context'],
@@ -232,7 +234,7 @@ PINS = {
     'C13': ['pipe', 'notification'],
     'C14': ['timing', 'notification'],
     'C15': ['init', 'loop', 'handler'],
-    'C16': ['basics', 'context', 'streams'],
+    'C16': ['basics', 'context', 'streams', 'locks'],
     'C17': ['concurrent_exception'],
     'C18': ['py_core', 'py_events', 'py_awaitable', 'py_exceptions'],
     'C19': ['py_res_base', 'py_res_container', 'py_res_resource', 'py_res_store'],
